@@ -1,7 +1,10 @@
 """C13 — caching: histories of runs of a program with Cache/CachePartial/ReadCache nodes, removed shard files and failing
 file operations, against BS.Cache."""
 PID = "C13"
+SUBS = ["C13", "C13wt"]
 PARALLEL = {"C13": 8}
+CASE_LIMIT = {"C13wt": 45}
+EXTRA_TARGETS = ("BS.Properties.C13w",)
 TIMEOUT = {"quick": 1500, "thorough": 7000}
 RULE = ("programs: a source (1..4 shards, 0..14 rows) followed by 2..6 operators drawn from counted Map, Filter, Flatmap, Reduce, "
         "Reshuffle, Reshard, materialised Map, Cache, CachePartial (cache operators at the head of a task — after a shuffle or a "
@@ -114,7 +117,7 @@ def directed_many_shards():
         yield "local CH128 ;; run %s ;; rm a 0 ;; run %s ;; rm a 7 ;; rm a 8 ;; rm a %d ;; run %s" % (p, p, n - 1, p)
 
 
-def gen(r, tier):
+def gen_main(r, tier):
     for c in directed_partial_over_shuffle():
         yield c
     for c in directed_many_shards():
@@ -155,13 +158,69 @@ def gen(r, tier):
         yield cfg + " ;; " + " ;; ".join(ops)
 
 
+def gen_wt(r, tier):
+    """the write-through reader of one shard, call by call: scripts of upstream results (0..6 calls of 0..9 rows, empty reads,
+    rows together with EOF, an error at any call), a file operation that fails once (every ordinal) or from some point on
+    (any kind / writes / the close), consumers that abandon the reader after k calls"""
+    def script():
+        n = r.rng(0, 6)
+        toks = []
+        for i in range(n):
+            last = i == n - 1
+            st = "m"
+            if last:
+                st = r.choice(["e", "e", "e", "x", "m"])
+            elif r.chance(1, 12):
+                st = "x"
+            toks.append("%d%s" % (r.choice([0, 1, 2, 3, r.rng(0, 9), r.rng(0, 9)]), st))
+        return " ".join(toks)
+    # exhaustive small: every one-shot failure position of a few fixed scripts
+    for u in ("3m 2e", "2m 0m 4m 0e", "5e", "0e", "", "2m 3x", "1m 1m 1m 1m 1e", "700m 900m 300e"):
+        for k in range(0, 9):
+            yield "U %s ; F %s ; STOP 0 ; D %d" % (u, "none" if k == 0 else "at %d" % k, 1024 if "700" in u else 16)
+        for kind in ("", " write", " closew", " create"):
+            for k in (1, 2, 3):
+                yield "U %s ; F from %d%s ; STOP 0 ; D %d" % (u, k, kind, 1024 if "700" in u else 16)
+        for s in (1, 2, 3):
+            yield "U %s ; F none ; STOP %d ; D %d" % (u, s, 1024 if "700" in u else 16)
+    n = 1500 if tier == "quick" else 40000
+    for _ in range(n):
+        u = script()
+        k = r.below(10)
+        if k < 3:
+            f = "none"
+        elif k < 7:
+            f = "at %d" % r.rng(1, 10)
+        else:
+            f = "from %d%s" % (r.rng(1, 8), r.choice(["", " write", " closew", " write"]))
+        stop = r.choice([0, 0, 0, r.rng(1, 5)])
+        yield "U %s ; F %s ; STOP %d ; D 16" % (u, f, stop)
+    # large shards: the compressor flushes in the middle of the stream, so a failing write surfaces at a Read call
+    for _ in range(40 if tier == "quick" else 600):
+        u = " ".join("%dm" % r.rng(30000, 60000) for _ in range(r.rng(2, 5))) + " %d%s" % (r.rng(0, 50000), r.choice(["e", "e", "x"]))
+        f = r.choice(["none", "at %d" % r.rng(1, 12), "from %d write" % r.rng(1, 6), "from %d closew" % r.rng(1, 3)])
+        yield "U %s ; F %s ; STOP %d ; D 65536" % (u, f, r.choice([0, 0, 2]))
+
+
+def gen(r, tier, sub):
+    return gen_wt(r, tier) if sub == "C13wt" else gen_main(r, tier)
+
+
 def nontrivial(case, obs):
+    if case.startswith("U "):
+        return "F none" not in case or "STOP 0" not in case
     ops = case.split(" ;; ")[1:]
     runs = [i for i, o in enumerate(ops) if o.startswith("run")]
     return len(runs) >= 2 or any(o.startswith("runfail") for o in ops)
 
 
 def shrink_candidates(case):
+    if case.startswith("U "):
+        segs = case.split(" ; ")
+        toks = segs[0].split()[1:]
+        for i in range(len(toks)):
+            yield " ; ".join(["U " + " ".join(toks[:i] + toks[i + 1:])] + segs[1:])
+        return
     parts = case.split(" ;; ")
     if len(parts) > 2:
         yield " ;; ".join(parts[:-1])
@@ -188,7 +247,11 @@ def t2(chk, wc, tier, seed):
     except ValueError:
         wt = ""
     closes = wt.count("r.file.Close")
-    publish_at_eof = re.search(r"if err == sliceio\.EOF \{\n\t\t\tcloseErr := r\.zw\.Close\(\)\n\t\t\terrors\.CleanUpCtx\(ctx, r\.file\.Close, &closeErr\)", wt) is not None
+    # the file is closed (= published) only under EOF, after the compressor closed without an error; a failing compressor close
+    # discards the file and returns before the file's Close (BS.WT.read: closeFails ↦ dropped)
+    publish_at_eof = re.search(r"if err == sliceio\.EOF \{\n(?:\t+//[^\n]*\n)*\t+if closeErr := r\.zw\.Close\(\); closeErr != nil \{\n"
+                               r"\t+r\.file\.Discard\([^\n]*\)\n\t+return n, closeErr\n\t+\}\n"
+                               r"\t+if closeErr := r\.file\.Close\(ctx\); closeErr != nil \{\n\t+return n, closeErr\n", wt) is not None
     discard_on_err = re.search(r"\} else \{\n\t\tr\.file\.Discard\(", wt) is not None
     deps_nil = re.findall(r"task\.Deps = nil", comp)
     guarded = re.search(r"if c\.inv\.Env\.IsCached\(task\.Name, opIdx\) \{\n(?:\t+.*\n)*?\t+task\.Deps = nil", comp) is not None
@@ -198,6 +261,6 @@ def t2(chk, wc, tier, seed):
     ties = [("cache_decisions_tie",
              "theorem cache_decisions_tie : requireAllG = true ∧ cacheKindsG = true ∧ writeThroughClosesG = 1 ∧ publishAtEofG = true ∧ "
              "discardOnErrG = true ∧ depsDroppedG = 1 ∧ depsDroppedGuardedG = true := by decide",
-             "slicecache.RequireAllCached / Cache vs CachePartial (BS.Cache.served), writethroughReader: one Close, at end-of-stream; Discard on "
-             "upstream error; compile: Deps dropped once, under IsCached")]
+             "slicecache.RequireAllCached / Cache vs CachePartial (BS.Cache.served), writethroughReader: one Close of the file, at end-of-stream and only after the compressor closed without an error "
+             "(otherwise Discard); Discard on upstream error; compile: Deps dropped once, under IsCached")]
     vlib.t2_check(chk, wc, "C13", ["BS.Model.Cache"], gen, ties)
